@@ -14,7 +14,11 @@ def optNat (j : Json) (k : String) : Option Nat :=
   | .error _ => none
 
 def parseProd (j : Json) : Except String ProdSpec := do
-  return { sid := ← Driver.getNat j "sid", useLock := ← Driver.getBool j "lock", ret := ← Driver.getNat j "ret" }
+  let more : List Nat := match Driver.getArr j "more" with
+    | .ok a => a.toList.filterMap fun x => x.getNat?.toOption
+    | .error _ => []
+  return { sid := ← Driver.getNat j "sid", useLock := ← Driver.getBool j "lock", ret := ← Driver.getNat j "ret",
+           more := more }
 
 def threadJson (t : PThread) : Json :=
   Json.mkObj [
